@@ -473,6 +473,7 @@ func drvFrame(c *ctx) error {
 			} else {
 				v = c.genDataFrame(invalid)
 			}
+			c.provoke()
 			c.emit(rtEvent(c, v, c.rnd.Intn(4) == 0))
 			if !invalid && v["kind"] == "data" && c.rnd.Intn(6) == 0 {
 				c.emit(rtDerived(c, v))
@@ -484,6 +485,9 @@ func drvFrame(c *ctx) error {
 		}
 	case "bytes":
 		for i := 0; i < c.n; i++ {
+			if i%16 == 0 {
+				c.provoke()
+			}
 			c.emit(bytesEvent(c, c.genBytes()))
 		}
 	case "bytecases":
